@@ -96,7 +96,7 @@ def run(c):
     c.r1("verify_size-verifies", "grin_core::pow::verify_size", "grin_core::pow::types::PoWContext::verify", via=0)
     c.r1("verify_size-sets-header", "grin_core::pow::verify_size", "grin_core::pow::types::PoWContext::set_header_nonce", sink="grin_core::pow::types::PoWContext::verify", via=0)
     # --- header MMR root check before apply
-    CL = P + "process_block_header::{closure#0}"
+    CL = P + "process_block_header@txhashset::txhashset::header_extending"
     c.r1("root-before-apply", CL, HX + "validate_root", sink=HX + "apply_header", via=0)
     c.r1("fork-before-root", CL, P + "rewind_and_apply_header_fork", sink=HX + "validate_root", via=0)
     c.loop("fork-root-before-apply", P + "rewind_and_apply_header_fork", HX + "validate_root", over=r"Vec::new")
